@@ -94,7 +94,14 @@ class NeverTrueInjector(Injector):
         return False
 
 
-INJECTORS = {"plain": Injector, "budget": BudgetInjector, "falsy": NeverTrueInjector}
+class AnyArgsInjector(Injector):
+    """A generic hook object that tolerates whatever arguments it is called with (Mock-like)."""
+
+    def __call__(self, *args, **kwargs):
+        return Injector.__call__(self)
+
+
+INJECTORS = {"plain": Injector, "budget": BudgetInjector, "falsy": NeverTrueInjector, "anyargs": AnyArgsInjector}
 
 
 def n_subcubes(w):
@@ -327,7 +334,7 @@ def plans_for(w, rng, tier, est_steps):
                       "recovery": rng.choice(("serial", "pooled"))})
     for p in plans:
         p.setdefault("poolsize", rng.choice((1, 2, 3, 4, 8)))
-        p["injector"] = rng.choice(("plain", "plain", "budget", "falsy"))
+        p["injector"] = rng.choice(("plain", "plain", "budget", "falsy", "anyargs"))
         for prefix in ("", "rec_"):
             seed = rng.getrandbits(48)
             p[prefix + "sched_seed"] = seed
